@@ -40,7 +40,7 @@ def addnl(s):
 
 
 def canon_key(k):
-    k = re.sub(r"\s+", " ", k).strip()
+    k = k.strip()   # names are trimmed, inner blanks are kept (MediaWiki)
     if k.isdigit() and int(k) > 0:
         return int(k)
     return k
